@@ -2,7 +2,8 @@
    Proved for every numeric structure [Num] (no laws assumed: covers IEEE doubles,
    NaN and infinities included). *)
 From TW Require Import FirstFit OptFit.
-From TW Require Import Partition.
+From TW Require Import Smawk.
+From TW Require Import Partition SmawkShape.
 
 Theorem C06_first_fit : forall (Nm : Num) (A : Type) (m : A -> frag Nm) (xs : list A) (lws : list (T Nm)),
   concat (first_fit m xs lws) = xs /\
@@ -25,5 +26,21 @@ Theorem C06_optimal_fit : forall (Nm : Num) (A : Type) (minima : list (nat * T N
     (xs = [] -> groups = [[]]).
 Proof. exact optimal_fit_with_partition. Qed.
 
+(* and unconditionally for the executable model of the smawk crate (smawk_inner +
+   online_column_minima, Model/Smawk.v), for every Num and every "equality" eqT — no law is
+   assumed, so NaN-like and inconsistent comparisons are covered: none of the crate's
+   assert!s or index operations can fail, and back-tracking yields an ordered partition *)
+Theorem C06_optimal_fit_smawk : forall (Nm : Num) (eqT : T Nm -> T Nm -> bool) (A : Type)
+  (m : A -> frag Nm) P (xs : list A) (lws : list (T Nm)),
+  exists groups, optimal_fit_smawk eqT m P xs lws = Some groups /\ concat groups = xs /\
+    (xs <> [] -> Forall (fun l => l <> []) groups) /\ (xs = [] -> groups = [[]]).
+Proof. exact optimal_fit_smawk_total. Qed.
+
+Theorem C06_smawk_shape : forall (Nm : Num) eqT P (fs : list (frag Nm)) lws minima,
+  smawk_minima Nm eqT P fs lws = Some minima -> minima_ok Nm minima (length fs).
+Proof. exact smawk_minima_ok. Qed.
+
+Print Assumptions C06_optimal_fit_smawk.
+Print Assumptions C06_smawk_shape.
 Print Assumptions C06_first_fit.
 Print Assumptions C06_optimal_fit.
